@@ -21,7 +21,14 @@ import (
 )
 
 var injKinds = []string{"configmap", "secret", "crd-instance", "list-kind", "truncate", "tabs", "binary", "notyaml", "emptyfile", "listdoc",
-	"scalar-doc", "foreign-netpol", "foreign-netpol", "foreign-deploy", "np-bad-selector", "pod-bad-labels", "deploy-bad-replicas", "np-bad-ports", "svc-bad-ports", "no-kind", "kind-only"}
+	"scalar-doc", "foreign-netpol", "foreign-netpol", "foreign-deploy", "np-bad-selector", "pod-bad-labels", "deploy-bad-replicas", "np-bad-ports", "svc-bad-ports", "ns-bad-labels", "ingress-bad-rules", "route-bad-to", "anp-bad-priority", "no-kind", "kind-only"}
+
+var classByConstruction = map[string]string{
+	"configmap": "ignored", "secret": "ignored", "crd-instance": "ignored", "list-kind": "ignored", "foreign-netpol": "ignored", "foreign-deploy": "ignored",
+	// (pod-bad-labels / ns-bad-labels break metadata, which the third-party scanner itself reads: classified by running it)
+	"np-bad-selector": "malformed", "deploy-bad-replicas": "malformed", "np-bad-ports": "malformed", "svc-bad-ports": "malformed",
+	"ingress-bad-rules": "malformed", "route-bad-to": "malformed", "anp-bad-priority": "malformed",
+}
 
 func injection(kind string, seed int, good string) (ext, content string) {
 	switch kind {
@@ -54,6 +61,14 @@ func injection(kind string, seed int, good string) (ext, content string) {
 		return "yaml", "apiVersion: apps/v1\nkind: Deployment\nmetadata:\n  name: baddep\n  namespace: ns0\nspec:\n  replicas: many\n  template:\n    metadata:\n      labels: {app: a}\n"
 	case "np-bad-ports":
 		return "yaml", "apiVersion: networking.k8s.io/v1\nkind: NetworkPolicy\nmetadata:\n  name: badports\n  namespace: ns0\nspec:\n  podSelector: {}\n  ingress:\n  - ports: {a: b}\n"
+	case "ns-bad-labels":
+		return "yaml", "apiVersion: v1\nkind: Namespace\nmetadata:\n  name: badns\n  labels: [a, b]\n"
+	case "ingress-bad-rules":
+		return "yaml", "apiVersion: networking.k8s.io/v1\nkind: Ingress\nmetadata:\n  name: badingress\n  namespace: ns0\nspec:\n  rules: 5\n"
+	case "route-bad-to":
+		return "yaml", "apiVersion: route.openshift.io/v1\nkind: Route\nmetadata:\n  name: badroute\n  namespace: ns0\nspec:\n  to: [a]\n"
+	case "anp-bad-priority":
+		return "yaml", "apiVersion: policy.networking.k8s.io/v1alpha1\nkind: AdminNetworkPolicy\nmetadata:\n  name: badanp\nspec:\n  priority: high\n  subject: {namespaces: {}}\n"
 	case "svc-bad-ports":
 		return "yaml", "apiVersion: v1\nkind: Service\nmetadata:\n  name: badsvc\n  namespace: ns0\nspec:\n  ports: 80\n"
 	}
@@ -126,9 +141,11 @@ func classify(tmp, good string, in injSpec, goodInfos int) string {
 	if buildDirty(tmp, good, []injSpec{in}) != nil {
 		return "ioerr"
 	}
-	if strings.HasPrefix(in.kind, "foreign-") {
-		// a resource of another API group is a document the analysis does not use, whatever the parser under test makes of it
-		return "ignored"
+	// well-formed YAML documents: the class is given by the statement of C13, not by the parser under test - a kind the
+	// analysis does not use (or a resource of another API group that shares a kind name) is ignored, a resource of a kind
+	// it uses that fails schema conversion is malformed (reported as a severe error)
+	if c, ok := classByConstruction[in.kind]; ok {
+		return c
 	}
 	infos, errs := fsscanner.GetResourceInfosFromDirPath([]string{tmp}, true, false)
 	if len(errs) > 0 {
